@@ -18,8 +18,10 @@ EXTENDS ObsPrelude
 
 Tol == 100        \* 1e-7 relative (worst rounding error measured on the repaired tree: 1e-12)
 
-OneSidedDoubling == {"pburg", "pyule", "pcovar", "pmodcovar", "parma", "pma", "pminvar", "MultiTapering"}
-ReversalInvariant == {"Periodogram", "pcorrelogram", "pyule", "pburg", "pmodcovar", "MultiTapering", "pminvar"}
+OneSidedDoubling == {"pburg", "pyule", "pcovar", "pmodcovar", "parma", "pma", "pminvar", "MultiTapering",
+                     "MultiTapering:adapt", "MultiTapering:unity"}
+ReversalInvariant == {"Periodogram", "pcorrelogram", "pyule", "pburg", "pmodcovar", "MultiTapering", "pminvar",
+                      "MultiTapering:adapt", "MultiTapering:unity"}
 
 Clauses(e) ==
     IF e.ev = "shift" THEN
